@@ -163,7 +163,7 @@ def ops_alphabet(njobs_max=3):
         for p in (0, 1):
             ops.append(("add", c, p))
     for w in (1, 2):
-        for chans in (("a",), ("b",), ()):
+        for chans in (("a",), ("b",), (), ("a", "b")) + ((("b", "a"),) if w == 1 else ()):
             ops.append(("pull", w, chans))
     ops.append(("run",))
     for k in range(njobs_max):
